@@ -98,6 +98,10 @@ def generate(seed, tier):
         s = {'kind': kind, 'placement': pl}
         if kind == 'dict':
             s['order'] = list(range(n_items)) if k == 0 else srng.perm(n_items)
+            if k and n_items > 2 and srng.chance(.35):
+                # built in two stages (see harness.build_dict_model)
+                s['split'] = srng.randrange(1, n_items)
+                s['mid_calc'] = srng.chance(.5)
         else:
             s['mode'] = 'loads'
             s['book_order'] = srng.perm(len(world['books']))
@@ -381,7 +385,8 @@ def run_schedule(world, s, log, budget):
     try:
         if s['kind'] == 'dict':
             m = build_dict_model(world, pl, s.get('order'), circular=True,
-                                 log=log)
+                                 log=log, split=s.get('split'),
+                                 mid_calc=s.get('mid_calc', False))
         else:
             m, disk = build_file_model(world, pl, s, circular=True, log=log)
             disk.uninstall()
@@ -640,8 +645,14 @@ def execute_world(trace):
         diff = [key for key in sorted(normal) if normal[key] != n0[key]]
         if diff:
             key = diff[0]
+            cells_ = [int(x[1:]) for x in diff if x[1:].isdigit()]
             viol.append({
                 'clause': 'C10.order', 'sched': k, 'cell': key,
+                # every differing cell is one a known finding already flags
+                # in some schedule (or lies downstream of one): a two-stage
+                # build gives the library a second go at a cut it refused
+                'known_sig': known_cells[cells_[0]] if len(cells_) == len(
+                    diff) and all(i in known_cells for i in cells_) else None,
                 'detail': 'schedule %d: %s = %s but schedule %d (same '
                           'placement, other order / load path) gives %s '
                           '(cells that differ: %s)' % (
@@ -688,6 +699,8 @@ def cross(trace, results):
 
 
 def signature(trace, v):
+    if v['clause'] == 'C10.order' and v.get('known_sig'):
+        return v['known_sig']
     if v['clause'] == 'C10.resolve' and v.get('range_member'):
         return 'C10.resolve/range-member-on-cycle'
     if v['clause'] == 'C10.strict' and v.get('icpt'):
@@ -764,3 +777,11 @@ def shrink_candidates(trace):
                 t = copy.deepcopy(trace)
                 t['schedules'][k]['order'] = ident
                 yield 'schedule %d: identity order' % k, t
+            if s.get('split'):
+                t = copy.deepcopy(trace)
+                del t['schedules'][k]['split']
+                yield 'schedule %d: one stage' % k, t
+                if s.get('mid_calc'):
+                    t = copy.deepcopy(trace)
+                    t['schedules'][k]['mid_calc'] = False
+                    yield 'schedule %d: no calculation between stages' % k, t
